@@ -368,7 +368,7 @@ func (e *Env) Build(n *Node) templ.Component {
 		return hwNonce(e.kid(n, 0))
 	case "hwclear":
 		return hwClear(e.kid(n, 0))
-	case "usescript", "onclick", "ontwo", "oncond", "onhx", "classof", "classtwo", "classcond":
+	case "rawscript", "usescript", "onclick", "ontwo", "oncond", "onhx", "classof", "classtwo", "classcond":
 		return e.buildC12(n)
 	}
 	panic("unknown node kind " + n.K)
